@@ -114,6 +114,24 @@ def anchor_universe() -> dict:
     # excess is skipped) fit into mutated encodings of the container
     types.append(td("Tiny", [fld("x", prim("uint", 8))], sealed=False, extent_bits=16))
     types.append(td("ArrDel", [fld("v", {"t": "varr", "elem": ref("Tiny"), "cap": 3, "incl": True}), fld("w", {"t": "farr", "elem": ref("Tiny"), "n": 2}), fld("k", prim("uint", 8))]))
+    # fixed arrays of sub-byte elements at STATICALLY known offsets whose end (but not every element) is byte-aligned
+    types.append(td("SubByte", [fld("a", {"t": "farr", "elem": prim("uint", 4), "n": 2}), fld("b", {"t": "farr", "elem": prim("uint", 2, "truncated"), "n": 4}), fld("c", {"t": "farr", "elem": prim("uint", 3), "n": 8}),
+                                fld("d", prim("uint", 4)), fld("e", {"t": "farr", "elem": prim("uint", 4), "n": 3}), fld("f", {"t": "farr", "elem": prim("uint", 1), "n": 8}),
+                                fld("g", {"t": "farr", "elem": prim("uint", 7, "truncated"), "n": 8}), fld("h", {"t": "farr", "elem": prim("int", 4), "n": 2}), fld("i", {"t": "farr", "elem": prim("uint", 6), "n": 4})]))
+    # a delimited type whose @extent is exactly its maximum size, as LAST member of a sealed container whose other parts can be
+    # filled to the brim (buffers sized to the maximum are then used completely); empty composites as last member / element
+    types.append(td("TightInner", [fld("x", {"t": "varr", "elem": prim("uint", 8), "cap": 4, "incl": True})], sealed=False, extent_bits=40))
+    types.append(td("TightOuter", [fld("a", {"t": "varr", "elem": prim("uint", 8), "cap": 4, "incl": True}), fld("b", ref("TightInner"))]))
+    types.append(td("TightArr", [fld("k", prim("uint", 8)), fld("bs", {"t": "farr", "elem": ref("TightInner"), "n": 2})]))
+    types.append(td("Nil", []))
+    types.append(td("NilD", [], sealed=False, extent_bits=0))
+    types.append(td("TailNil", [fld("x", prim("uint", 8)), fld("e", ref("Nil"))]))
+    types.append(td("TailNilArr", [fld("x", prim("uint", 8)), fld("es", {"t": "farr", "elem": ref("Nil"), "n": 2})]))
+    types.append(td("TailNilD", [fld("x", prim("uint", 8)), fld("d", ref("NilD"))]))
+    types.append(td("TailNilVar", [fld("x", prim("uint", 8)), fld("ds", {"t": "varr", "elem": ref("NilD"), "cap": 2, "incl": True})]))
+    # bit-packed arrays whose length is not a multiple of 8, starting inside a byte (truncated inputs end inside them)
+    types.append(td("BitArr", [fld("a", prim("uint", 5)), fld("f", {"t": "farr", "elem": {"t": "bool"}, "n": 10}), fld("b", prim("uint", 3)), fld("g", {"t": "varr", "elem": {"t": "bool"}, "cap": 20, "incl": True}),
+                               fld("h", {"t": "farr", "elem": {"t": "bool"}, "n": 13}), fld("i", {"t": "farr", "elem": prim("uint", 4), "n": 2}), fld("j", {"t": "farr", "elem": prim("uint", 2), "n": 4})]))
     # array length prefixes of 8 and 16 bits at the capacity boundary (255 / 256), byte-aligned and not
     types.append(td("LenPrefix", [fld("a", {"t": "varr", "elem": prim("uint", 8), "cap": 256, "incl": True}), fld("b", {"t": "varr", "elem": {"t": "bool"}, "cap": 255, "incl": True}),
                                   fld("c", {"t": "varr", "elem": prim("int", 16), "cap": 257, "incl": True}), fld("d", {"t": "varr", "elem": prim("uint", 7, "truncated"), "cap": 255, "incl": True})]))
@@ -191,6 +209,10 @@ def job_strategy(draw, spec: dict, fixed_universe: typing.Optional[dict] = None)
                     cut = draw(st.integers(0, len(b2)))
                     prior = valuegen.words_hex(valuegen.to_words(ct, v1))
                     strings = [b2.hex() or "-", b2[:cut].hex() or "-", b1.hex() or "-"]
+                    if len(b2) <= 16:
+                        # short encodings: EVERY truncation point meets every prior state (zero extension inside a bit-packed
+                        # or unaligned member depends on exactly where the buffer ends)
+                        strings += [b2[:c].hex() or "-" for c in range(len(b2)) if c != cut]
                     for h in strings:
                         for mode in ("F", "Z", "P", "V"):
                             cases.append({"op": "D", "ti": ti, "cls": "prior", "bytes": h, "mode": mode, "prior": prior if mode == "V" else "-"})
